@@ -154,6 +154,75 @@ EmitBitmap == BmOnce => \A q \in BmSeqs :
                contains |-> [i \in 1..Len(BmProbe) |-> BmProbe[i] \in S],
                rd |-> Exp("NSEC", <<nA, S>>)]]))
 
+(* The SVCB parameter builder: whatever the order of the pushes (distinct    *)
+(* keys), the frozen value is the RFC 9460 2.2 encoding of the set in        *)
+(* ascending key order, and an SVCB record built from it round-trips.        *)
+SvcKeys == {0, 1, 3, 4, 6, 8, 65000}
+SvcVal(k) == IF k = 0 THEN <<0, 3>> ELSE <<k % 256, 195, 0>>      \* pushed as opaque values
+SvcPushSeqs == UNION {{q \in [1..n -> SvcKeys] : \A i, j \in 1..n : i # j => q[i] # q[j]} : n \in 0..4}
+SortedParams(q) == LET ks == SortSet({q[i] : i \in 1..Len(q)})
+                   IN [i \in 1..Len(ks) |-> [k |-> ks[i], v |-> SvcVal(ks[i])]]
+LawSvcBuilder == BmOnce => \A q \in SvcPushSeqs :
+  LET v == << <<0, 1>>, nA, SortedParams(q) >>
+      r == ParseRd("SVCB", ComposeRd("SVCB", v))
+  IN ValidRd("SVCB", v) /\ r.ok /\ r.val = v
+EmitSvcBuilder == BmOnce => \A q \in SvcPushSeqs :
+  PrintT("CASE " \o ToJson(
+     [in |-> [mode |-> "svcparams", pushes |-> [i \in 1..Len(q) |-> [k |-> q[i], v |-> SvcVal(q[i])]]],
+      exp |-> [params |-> ComposeTlvs(SortedParams(q)), issues |-> <<>>,
+               rd |-> Exp("SVCB", << <<0, 1>>, nA, SortedParams(q) >>)]]))
+
+(* The TXT builder as a small machine over the logical strings: append_slice *)
+(* extends the open string and wraps at 255 octets, append_charstr and       *)
+(* close_charstr close it, finish closes and turns "nothing" into one empty  *)
+(* string.  The result is the CharStrSeq encoding of the logical strings.    *)
+TxtOps == {[op |-> "slice", n |-> x] : x \in {0, 1, 100, 200, 255, 256}}
+          \cup {[op |-> "charstr", n |-> x] : x \in {0, 1, 255}}
+          \cup {[op |-> "close", n |-> 0]}
+TxtOpSeqs == UNION {[1..n -> TxtOps] : n \in 0..3}
+TxtContent(i, n) == [j \in 1..n |-> (i * 16 + j) % 256]
+RECURSIVE Chunks255(_)
+Chunks255(d) == IF d = <<>> THEN <<>>
+                ELSE IF Len(d) <= 255 THEN <<d>>
+                ELSE <<SubSeq(d, 1, 255)>> \o Chunks255(SubSeq(d, 256, Len(d)))
+TxtStep(st, i, o) ==
+  CASE o.op = "close"   -> [st EXCEPT !.open = FALSE]
+    [] o.op = "charstr" -> [strs |-> Append(st.strs, TxtContent(i, o.n)), open |-> FALSE]
+    [] o.op = "slice"   ->
+         LET d == TxtContent(i, o.n)
+             room == IF st.open THEN 255 - Len(st.strs[Len(st.strs)]) ELSE 0
+         IN IF st.open /\ Len(d) < room
+            THEN [st EXCEPT !.strs[Len(st.strs)] = @ \o d]
+            ELSE LET base == IF st.open THEN [st.strs EXCEPT ![Len(st.strs)] = @ \o SubSeq(d, 1, room)]
+                             ELSE st.strs
+                     chunks == Chunks255(SubSeq(d, room + 1, Len(d)))
+                 IN [strs |-> base \o chunks,
+                     open |-> IF chunks = <<>> THEN st.open ELSE Len(chunks[Len(chunks)]) < 255]
+RECURSIVE TxtRunFrom(_, _, _)
+TxtRunFrom(st, q, i) == IF i > Len(q) THEN st ELSE TxtRunFrom(TxtStep(st, i, q[i]), q, i + 1)
+TxtResult(q) == LET st == TxtRunFrom([strs |-> <<>>, open |-> FALSE], q, 1)
+                IN IF st.strs = <<>> THEN << <<>> >> ELSE st.strs
+LawTxtBuilder == BmOnce => \A q \in TxtOpSeqs :
+  LET strs == TxtResult(q) IN
+  /\ ValidRd("TXT", <<strs>>)
+  /\ Concat(strs) = Concat([i \in 1..Len(q) |-> IF q[i].op = "close" THEN <<>> ELSE TxtContent(i, q[i].n)])
+  /\ ParseRd("TXT", ComposeRd("TXT", <<strs>>)) = [ok |-> TRUE, val |-> <<strs>>]
+EmitTxtBuilder == BmOnce => \A q \in TxtOpSeqs :
+  PrintT("CASE " \o ToJson(
+     [in |-> [mode |-> "txt", ops |-> q],
+      exp |-> [txt |-> ComposeRd("TXT", <<TxtResult(q)>>), issues |-> <<>>,
+               rd |-> Exp("TXT", <<TxtResult(q)>>)]]))
+
+(* The ALPN value builder (RFC 9460 7.1.1): length-prefixed protocol ids *)
+AlpnIds == {<<104, 50>>, <<104, 51>>, <<72>>, Rep(255, 120)}
+AlpnSeqs == UNION {[1..n -> AlpnIds] : n \in 1..2}
+EmitAlpnBuilder == BmOnce => \A q \in AlpnSeqs :
+  LET value == Concat([i \in 1..Len(q) |-> <<Len(q[i])>> \o q[i]]) IN
+  PrintT("CASE " \o ToJson(
+     [in |-> [mode |-> "alpn", ids |-> q],
+      exp |-> [value |-> value, issues |-> <<>>,
+               params |-> ComposeTlvs(<< [k |-> 1, v |-> value] >>)]]))
+
 EmitPlain == V => PrintT("CASE " \o ToJson([in |-> In("plain", ComposeRd(t, val)), exp |-> Exp(t, val),
                                         dev |-> DevExp(t, val)]))
 EmitPtr ==
